@@ -526,7 +526,8 @@ def gen_material(rng):
 
     blocks = [block(2, rng.choice(('>=dx90', 'LightmappedGeneric_dx8', 'insert', 'replace', None))) for _ in range(rng.choice((0, 0, 1, 2)))]
     proxies = [block(1, rng.choice(('Sine', 'TextureScroll', 'Equals', None))) for _ in range(rng.choice((0, 0, 1, 3)))]
-    shader = rng.choice(('LightmappedGeneric', 'VertexLitGeneric', 'patch', 'UnlitGeneric', 'Water_DX60', 'x'))
+    shader = rng.choice(('LightmappedGeneric', 'VertexLitGeneric', 'patch', 'UnlitGeneric', 'Water_DX60', 'x',
+                         'My Shader', 'Lightmapped{Generic}', '#Shader'))   # names the reader only accepts when they are quoted
     return Material(shader, params, blocks, proxies)
 
 
